@@ -6,6 +6,7 @@
    capacity >= 2 and every extensions setting. *)
 From OFGA Require Import Conc.FifoSpec Conc.Mpmc Conc.MpmcInv Conc.MpmcProofs Conc.FifoSpecProofs.
 From OFGA Require Import Conc.MpmcWakeup.
+From OFGA Require Import Conc.Medium Conc.MediumProofs.
 From OFGA Require Import Conc.Mpsc Conc.MpscProofs.
 
 (* ---- MPMC ---- *)
@@ -124,6 +125,35 @@ Print Assumptions mpsc_no_lost_wakeup.
 Theorem mpsc_no_panic : forall cp pps sched, mpanicked (mrun (minit cp pps) sched) = false.
 Proof. exact mpsc_no_panic_lemma. Qed.
 Print Assumptions mpsc_no_panic.
+
+(* ---- the media of worker/medium.go (wrappers with a [closed] latch) ---- *)
+
+Theorem medium_legal : forall k ops,
+  let s := med_run (minit_medium k) ops in
+  legal (mev s) /\ enqs (mev s) = deqs (mev s) ++ c_buf (mch s).
+Proof. exact medium_legal_lemma. Qed.
+Print Assumptions medium_legal.
+
+Theorem medium_cancel_does_not_close : forall k ops choice,
+  let s := med_run (minit_medium k) ops in
+  (latch (fst (med_step s (MRecv false choice))) = latch s
+   /\ (snd (med_step s (MRecv false choice)) = MRRecv None ->
+         mch (fst (med_step s (MRecv false choice))) = mch s))
+  /\ (latch s = true -> c_closed (mch s) = true /\ c_buf (mch s) = [])
+  /\ (forall v rest, c_buf (mch s) = v :: rest ->
+        snd (med_step s (MRecv true choice)) = MRRecv (Some v)
+        /\ c_buf (mch (fst (med_step s (MRecv true choice)))) = rest).
+Proof. exact medium_cancel_does_not_close_lemma. Qed.
+Print Assumptions medium_cancel_does_not_close.
+
+(* cancelled Recv on the empty open QueueMedium, then Send, Close: the item is still received *)
+Example medium_nonvacuous :
+  let s := med_run (minit_medium MQueue)
+             [(MRecv false false, false); (MSend true 5%N, false); (MClose, false)] in
+  latch s = false /\ snd (med_step s (MRecv true false)) = MRRecv (Some 5%N)
+  /\ snd (med_step (fst (med_step s (MRecv true false))) (MRecv true false)) = MRRecv None
+  /\ latch (fst (med_step (fst (med_step s (MRecv true false))) (MRecv true false))) = true.
+Proof. vm_compute. repeat split. Qed.
 
 (* ---- non-vacuity: concrete runs in which the interesting branches are taken ---- *)
 
